@@ -225,6 +225,8 @@ func c11Scenarios() []c11Scenario {
 	add("toupper", false, false, "toupper", "-i", "@nt.fa")
 	add("transpose", false, false, "transpose", "-i", "@nt.fa")
 	add("unalign", false, false, "unalign", "-i", "@nt.fa")
+	// one output file per alignment of the input (a contributor would write them in parallel)
+	add("unalign-multi-prefix", false, true, "unalign", "-p", "-i", "@multi.ph", "-o", "ua")
 	add("diff", false, false, "diff", "-i", "@nt.fa")
 	add("diff-counts", false, false, "diff", "--counts", "-i", "@tie.fa")
 	add("concat", false, false, "concat", "-i", "@nt.fa", "@nt2.fa", "-l", "concat.log")
